@@ -397,6 +397,47 @@ func parseValues(txt string, vs []*Term, model map[string]*big.Int) {
 
 // fallback re-decides pc ∧ extra with a second solver (one-shot process) after
 // the primary one answered unknown.
+// thirdStage runs script (which ends in check-sat) in a fresh z3 with a
+// 120 s limit, preferring the newer z3 when it is installed.
+func (s *solver) thirdStage(script string, wantModel []*Term) (satResult, map[string]*big.Int) {
+	script = strings.Replace(script, "(set-logic ALL)\n", "", 1)
+	for _, bin := range []string{"z3-new", "z3"} {
+		path, err := exec.LookPath(bin)
+		if err != nil {
+			continue
+		}
+		full := script
+		if len(wantModel) > 0 {
+			var names []string
+			for _, v := range wantModel {
+				names = append(names, ref(v))
+			}
+			full += "(get-value (" + strings.Join(names, " ") + "))\n"
+		}
+		cmd := exec.Command(path, "-T:120", "-in")
+		cmd.Stdin = strings.NewReader(full)
+		out, _ := cmd.Output()
+		txt := strings.TrimSpace(string(out))
+		if strings.HasPrefix(txt, "unsat") {
+			return resUnsat, nil
+		}
+		if strings.HasPrefix(txt, "sat") {
+			var model map[string]*big.Int
+			if len(wantModel) > 0 {
+				rest := txt[3:]
+				if k := strings.Index(rest, "("); k >= 0 && !strings.Contains(rest, "(error") {
+					model = map[string]*big.Int{}
+					parseValues(rest[k:], wantModel, model)
+				} else {
+					continue
+				}
+			}
+			return resSat, model
+		}
+	}
+	return resUnknown, nil
+}
+
 func (s *solver) fallback(extra *Term, wantModel []*Term) (satResult, map[string]*big.Int) {
 	start := time.Now()
 	s.nFallback++
@@ -431,10 +472,21 @@ func (s *solver) fallback(extra *Term, wantModel []*Term) (satResult, map[string
 		res = resSat
 		s.nSat++
 	default:
-		s.nUnknown++
+		// third stage: the same query, one-shot, in z3 with a long time limit
+		// (under heavy machine load the 400 ms incremental limit and even the
+		// first fallback can run out of wall-clock time on easy queries)
+		r3, m3 := s.thirdStage(sb.String(), wantModel)
 		s.fallbackTime += time.Since(start)
 		s.solverTime += time.Since(start)
-		return resUnknown, nil
+		switch r3 {
+		case resSat:
+			s.nSat++
+		case resUnsat:
+			s.nUnsat++
+		default:
+			s.nUnknown++
+		}
+		return r3, m3
 	}
 	var model map[string]*big.Int
 	if res == resSat && len(wantModel) > 0 {
